@@ -207,7 +207,7 @@ func (sc scen) harness() func() *sched.Harness {
 				if len(ups) == 0 && (cancelledAt < 0 || cancelledAt > 0) {
 					return fmt.Errorf("C17/no-initial-backup: no upload was attempted (server ran until %v)", cancelledAt)
 				}
-				// freshness: if the server kept running for two minutes after the last write and the
+				// freshness: if the server kept running for four minutes after the last write (the property sets no exact delay) and the
 				// last two attempts' answers allowed it, the newest successful object equals the current file
 				if len(writeTimes) > 0 && cancelledAt >= 0 {
 					lastWrite := writeTimes[len(writeTimes)-1]
@@ -221,7 +221,7 @@ func (sc scen) harness() func() *sched.Harness {
 					for _, u := range after {
 						allOK = allOK && u.ok
 					}
-					if cancelledAt-lastWrite > 2*time.Minute+time.Second && allOK {
+					if cancelledAt-lastWrite > 4*time.Minute && allOK {
 						cur := versions[len(versions)-1]
 						found := false
 						for _, u := range ups {
@@ -236,7 +236,7 @@ func (sc scen) harness() func() *sched.Harness {
 				}
 				// a failed upload is retried (when the server keeps running long enough)
 				for i, u := range ups {
-					if !u.ok && i == len(ups)-1 && cancelledAt-u.at > 2*time.Minute+time.Second {
+					if !u.ok && i == len(ups)-1 && cancelledAt-u.at > 4*time.Minute {
 						return fmt.Errorf("C17/failed-upload-not-retried: the upload at %v failed and was never retried although the server ran until %v", u.at, cancelledAt)
 					}
 				}
